@@ -158,11 +158,7 @@ Theorem C04_no_error_unless_allowed :
     d_res d <> RIndet ->
     allowed_errors_with settings_verdict (srole_of role) (sdescs (sent_of h)) = [] ->
     forall e, d_res d <> RErr e.
-Proof.
-  intros role grease wt credit dflt h Hh d Hni Hnone e He.
-  pose proof (errors_allowed role grease wt credit dflt h e Hh Hni He) as Hin. fold d in Hin.
-  rewrite Hnone in Hin. destruct Hin.
-Qed.
+Proof. exact no_error_unless_allowed. Qed.
 
 (* ---- T1 / T2, the part about stream types, against the bytes ----
    For every history in which no stream id is announced twice: every STOP_SENDING h3 issued is
@@ -183,10 +179,7 @@ Theorem C04_stream_types :
     (c_cause c = Some CzTwoEncoder -> two_of x ST_QPACK_ENCODER) /\
     (c_cause c = Some CzTwoDecoder -> two_of x ST_QPACK_DECODER) /\
     c_cause c <> Some CzHeaderInternal.
-Proof.
-  intros role grease wt credit dflt h Hh d x c w.
-  destruct (stream_types_bytes role grease wt credit dflt h Hh) as [F1 F2 F3 F4 F5 F6]. auto 10.
-Qed.
+Proof. exact stream_types_statement. Qed.
 
 (* after poll_accept_recv has looked at the pending streams without failing, every stream still pending has an
    incomplete header and has not ended: streams with a complete header have been classified (unknown ones refused),
